@@ -7,6 +7,7 @@ import (
 	"context"
 	"fmt"
 	"math/rand/v2"
+	"sort"
 	"strconv"
 	"strings"
 	"time"
@@ -45,6 +46,14 @@ type Cfg struct {
 	Sink       simsink.Config `json:"sink"`
 	MaxPoll    int            `json:"max_poll"`
 	HasAction  bool           `json:"has_action"`
+	// Restarts of the consumer: a kill at a seeded instant (only what the broker holds survives) or a
+	// graceful Pipeline.Stop, each followed by a fresh pipeline + plugin + client in the same group.
+	Restarts []Restart `json:"restarts,omitempty"`
+}
+
+type Restart struct {
+	At       time.Duration `json:"at"`
+	Graceful bool          `json:"graceful,omitempty"`
 }
 
 func (c *Cfg) SimCfg() *simrt.Config { return &c.Sim }
@@ -137,6 +146,13 @@ func (h *H) Gen(rng *rand.Rand, tier, prop string) core.Cfg {
 		c.Sim.Faults["kafka.fetcherr"] = 0.05
 	}
 	c.Sim.QuietAt = 15 * time.Second
+	if core.Chance(rng, 0.4) {
+		at := time.Duration(0)
+		for i, k := 0, core.Between(rng, 1, 2); i < k; i++ {
+			at += core.DurBetween(rng, time.Millisecond, 2*time.Second)
+			c.Restarts = append(c.Restarts, Restart{At: at, Graceful: core.Chance(rng, 0.3)})
+		}
+	}
 	return c
 }
 
@@ -172,6 +188,17 @@ func (h *H) Shrink(cc core.Cfg) []core.Cfg {
 		d.Preloaded = n
 		out = append(out, d)
 	}
+	for i := range c.Restarts {
+		d := clone()
+		d.Restarts = append(append([]Restart(nil), c.Restarts[:i]...), c.Restarts[i+1:]...)
+		out = append(out, d)
+		if c.Restarts[i].Graceful {
+			d = clone()
+			d.Restarts = append([]Restart(nil), c.Restarts...)
+			d.Restarts[i].Graceful = false
+			out = append(out, d)
+		}
+	}
 	return out
 }
 
@@ -181,16 +208,28 @@ type recState struct {
 	finished bool
 	finStep  int
 	proc     int
+	// a MarkCommitOffsets call moved the partition's head past this record while it was unfinished
+	markPassed bool
 }
 
 type run struct {
-	cfg   *Cfg
-	o     *core.Outcome
-	byKey map[string]*recState // topic/partition/offset
-	byID  map[int]*recState
-	marks int
-	pendingSend map[int][]int
+	cfg             *Cfg
+	o               *core.Outcome
+	byKey           map[string]*recState // topic/partition/offset
+	byID            map[int]*recState
+	marks           int
+	pendingSend     map[int][]int
 	spreadExercised bool
+	incarnation     int
+}
+
+func sortedIDs(m map[int]*recState) []int {
+	ids := make([]int, 0, len(m))
+	for id := range m {
+		ids = append(ids, id)
+	}
+	sort.Ints(ids)
+	return ids
 }
 
 func key(topic string, part int32, off int64) string {
@@ -274,39 +313,67 @@ func (h *H) Run(cc core.Cfg, sim *simrt.Sim) *core.Outcome {
 			}
 		}
 		b.OnMark = func(tp simkgo.TP, head, call simkgo.EpochOffset) { r.onMark(tp, head, call) }
-		seq++
-		name := fmt.Sprintf("h4_%d", seq)
-		simrt.GoGroup("filed", func() {
-			settings := &pipeline.Settings{
-				Capacity: cfg.Capacity, MaintenanceInterval: 5 * time.Second, EventTimeout: time.Second,
-				Antispam:     pipeline.AntispamSettings{Threshold: -1, MaintenanceInterval: 5 * time.Second},
-				AvgEventSize: 128, StreamField: "stream", Decoder: "json", Pool: pipeline.PoolType(cfg.Pool), MetaCacheSize: 16,
-				Metric: &pipeline.MetricSettings{HoldDuration: time.Minute},
-			}
-			p := pipeline.New(name, settings, prometheus.NewRegistry(), h1pipe.QuietLogger())
-			if cfg.SingleProc {
-				p.DisableParallelism()
-			}
-			static, err := fd.DefaultPluginRegistry.Get(pipeline.PluginKindInput, "kafka")
-			if err != nil {
-				panic(err)
-			}
-			js := fmt.Sprintf(`{"brokers":["sim:9092"],"topics":["%s"],"consumer_group":"g","auto_commit_interval":"200ms"}`, strings.Join(cfg.Topics, `","`))
-			conf, err := pipeline.GetConfig(static, []byte(js), map[string]int{"gomaxprocs": 1, "capacity": cfg.Capacity})
-			if err != nil {
-				panic(fmt.Sprintf("kafka config: %v", err))
-			}
-			info := *static
-			info.Config = conf
-			plugin, _ := static.Factory()
-			p.SetInput(&pipeline.InputPluginInfo{PluginStaticInfo: &info, PluginRuntimeInfo: &pipeline.PluginRuntimeInfo{Plugin: plugin}})
-			if cfg.HasAction {
-				p.AddAction(&pipeline.ActionPluginStaticInfo{PluginStaticInfo: &pipeline.PluginStaticInfo{Type: "drop", Factory: func() (pipeline.AnyPlugin, pipeline.AnyConfig) { return &dropAction{r: r}, nil }}})
-			}
-			ctx, _ := simrt.ContextWithCancel(context.Background())
-			p.SetOutput(&pipeline.OutputPluginInfo{PluginStaticInfo: &pipeline.PluginStaticInfo{Type: "simsink"}, PluginRuntimeInfo: &pipeline.PluginRuntimeInfo{Plugin: &simsink.Plugin{Cfg: cfg.Sink, Obs: r, Ctx: ctx}}})
-			p.Start()
-		})
+		var curPipe *pipeline.Pipeline
+		startIncarnation := func() int {
+			seq++
+			name := fmt.Sprintf("h4_%d", seq)
+			return simrt.GoGroup("filed", func() {
+				settings := &pipeline.Settings{
+					Capacity: cfg.Capacity, MaintenanceInterval: 5 * time.Second, EventTimeout: time.Second,
+					Antispam:     pipeline.AntispamSettings{Threshold: -1, MaintenanceInterval: 5 * time.Second},
+					AvgEventSize: 128, StreamField: "stream", Decoder: "json", Pool: pipeline.PoolType(cfg.Pool), MetaCacheSize: 16,
+					Metric: &pipeline.MetricSettings{HoldDuration: time.Minute},
+				}
+				p := pipeline.New(name, settings, prometheus.NewRegistry(), h1pipe.QuietLogger())
+				if cfg.SingleProc {
+					p.DisableParallelism()
+				}
+				static, err := fd.DefaultPluginRegistry.Get(pipeline.PluginKindInput, "kafka")
+				if err != nil {
+					panic(err)
+				}
+				js := fmt.Sprintf(`{"brokers":["sim:9092"],"topics":["%s"],"consumer_group":"g","auto_commit_interval":"200ms"}`, strings.Join(cfg.Topics, `","`))
+				conf, err := pipeline.GetConfig(static, []byte(js), map[string]int{"gomaxprocs": 1, "capacity": cfg.Capacity})
+				if err != nil {
+					panic(fmt.Sprintf("kafka config: %v", err))
+				}
+				info := *static
+				info.Config = conf
+				plugin, _ := static.Factory()
+				p.SetInput(&pipeline.InputPluginInfo{PluginStaticInfo: &info, PluginRuntimeInfo: &pipeline.PluginRuntimeInfo{Plugin: plugin}})
+				if cfg.HasAction {
+					p.AddAction(&pipeline.ActionPluginStaticInfo{PluginStaticInfo: &pipeline.PluginStaticInfo{Type: "drop", Factory: func() (pipeline.AnyPlugin, pipeline.AnyConfig) { return &dropAction{r: r}, nil }}})
+				}
+				ctx, _ := simrt.ContextWithCancel(context.Background())
+				p.SetOutput(&pipeline.OutputPluginInfo{PluginStaticInfo: &pipeline.PluginStaticInfo{Type: "simsink"}, PluginRuntimeInfo: &pipeline.PluginRuntimeInfo{Plugin: &simsink.Plugin{Cfg: cfg.Sink, Obs: r, Ctx: ctx}}})
+				curPipe = p
+				p.Start()
+			})
+		}
+		grp := startIncarnation()
+		restartsDone := len(cfg.Restarts) == 0
+		if !restartsDone {
+			simrt.Go("restarter", func() {
+				t0 := simrt.SimNow()
+				for _, rs := range cfg.Restarts {
+					if d := t0 + rs.At - simrt.SimNow(); d > 0 {
+						simrt.Sleep(d)
+					}
+					if rs.Graceful && curPipe != nil {
+						curPipe.Stop()
+						o.Probes["graceful-stops"]++
+					} else {
+						o.Probes["kills"]++
+					}
+					simrt.KillGroup(grp)
+					r.pendingSend = map[int][]int{}
+					r.incarnation++
+					curPipe = nil
+					grp = startIncarnation()
+				}
+				restartsDone = true
+			})
+		}
 		for i := cfg.Preloaded; i < len(cfg.Recs); i++ {
 			rc := cfg.Recs[i]
 			if rc.Pause > 0 {
@@ -317,10 +384,28 @@ func (h *H) Run(cc core.Cfg, sim *simrt.Sim) *core.Outcome {
 			b.Append(cfg.Topics[rc.Topic], rc.Part, mk(rc))
 		}
 		deadline := simrt.SimNow() + cfg.Sim.QuietAt + 60*time.Second
-		for simrt.SimNow() < deadline && !r.allFinished() {
+		for simrt.SimNow() < deadline && !(r.allFinished() && restartsDone) {
 			simrt.Sleep(200 * time.Millisecond)
 		}
 		simrt.Sleep(time.Second)
+		if len(cfg.Restarts) > 0 && restartsDone {
+			// "a restart of the consumer group from the committed offsets redelivers everything unfinished"
+			for _, id := range sortedIDs(r.byID) {
+				x := r.byID[id]
+				if x.finished {
+					continue
+				}
+				sig := "record-lost-after-restart"
+				if x.markPassed && !cfg.SingleProc {
+					// the consequence of a mark-past-unfinished-record/...spread... violation reported earlier in this run for this very record
+					sig += "/a-mark-had-passed-it/records-of-one-partition-spread-over-several-processors"
+				}
+				com, has := b.Committed(simkgo.TP{Topic: cfg.Topics[x.rec.Topic], Partition: x.rec.Part})
+				o.Violate("C10", sig, "record id %d (%s/%d offset %d, consumed %d times) was neither acknowledged by the output nor dropped in any incarnation, %v after the last restart; committed offset of the partition: %d (has commit: %v)",
+					x.rec.ID, cfg.Topics[x.rec.Topic], x.rec.Part, x.rec.Offset, x.consumed, simrt.SimNow()-cfg.Restarts[len(cfg.Restarts)-1].At, com.Offset, has)
+				break
+			}
+		}
 		verdict = true
 		simrt.Stop("done")
 	})
@@ -361,7 +446,9 @@ func (r *run) onMark(tp simkgo.TP, head, call simkgo.EpochOffset) {
 	}
 	// 2./3. nothing unfinished below the marked head
 	var maxConsumed int64 = -1
-	for _, x := range r.byID {
+	var passed *recState
+	for _, id := range sortedIDs(r.byID) {
+		x := r.byID[id]
 		if r.cfg.Topics[x.rec.Topic] != tp.Topic || x.rec.Part != tp.Partition || x.consumed == 0 {
 			continue
 		}
@@ -369,13 +456,19 @@ func (r *run) onMark(tp simkgo.TP, head, call simkgo.EpochOffset) {
 			maxConsumed = x.rec.Offset
 		}
 		if !x.finished && x.rec.Offset < head.Offset {
-			sig := "mark-past-unfinished-record/records-of-one-partition-spread-over-several-processors"
-			if r.cfg.SingleProc {
-				sig = "mark-past-unfinished-record/single-processor"
+			x.markPassed = true
+			if passed == nil || x.rec.Offset < passed.rec.Offset {
+				passed = x
 			}
-			o.Violate("C10", sig, "after MarkCommitOffsets(%s/%d offset %d) the marked offset is %d, but record offset %d (id %d) of that partition was consumed and is neither acknowledged by the output nor dropped; a restart from the committed offset would skip it", tp.Topic, tp.Partition, call.Offset, head.Offset, x.rec.Offset, x.rec.ID)
-			return
 		}
+	}
+	if x := passed; x != nil {
+		sig := "mark-past-unfinished-record/records-of-one-partition-spread-over-several-processors"
+		if r.cfg.SingleProc {
+			sig = "mark-past-unfinished-record/single-processor"
+		}
+		o.Violate("C10", sig, "after MarkCommitOffsets(%s/%d offset %d) the marked offset is %d, but record offset %d (id %d) of that partition was consumed and is neither acknowledged by the output nor dropped; a restart from the committed offset would skip it", tp.Topic, tp.Partition, call.Offset, head.Offset, x.rec.Offset, x.rec.ID)
+		return
 	}
 	if head.Offset > maxConsumed+1 {
 		o.Violate("C10", "mark-beyond-consumed", "marked offset %d of %s/%d is more than one past the highest consumed offset %d", head.Offset, tp.Topic, tp.Partition, maxConsumed)
